@@ -341,6 +341,12 @@ class FourierTransformer(BilateralForwardTransformer):
                         result += self.term(term, t, f)
                     return result * const
 
+            if expr.is_rational_function(t) and not expr.is_polynomial(t):
+                # SymPy only returns the result for one side (say exp(-a * t)
+                # instead of exp(-a * abs(t))); raise an error so that the
+                # caller retries with a partial fraction expansion.
+                self.error('Rational function, need partial fractions')
+
             # Punt and use SymPy.  Should check for t**n, t**n * exp(-a * t), etc.
             return const * self.sympy(expr, t, sf)
 
